@@ -324,7 +324,7 @@ pub fn check(prop: &str, tier: Tier, seed: u64) -> i32 {
                 seed,
                 CheckSpec {
                     level: "exploration",
-                    rule: "seeded concurrent scenarios (2-4 simulated caller threads x 1-7 calls over 1-5 shared sync nodes, seeded initial edges incl. self-loops and parallel edges) run under a seeded scheduler that decides every interleaving of lock acquisitions and the lock's queueing policy (writer preference on/off); verdicts: deadlock, step-budget overrun, panic/poison, quiescent mirror/symmetry invariant, serialisability of the mutating calls' return values and final graph against the reference model; for a small share of the tiniest scenarios (<= 3 tasks, <= 3 calls) every schedule is enumerated depth-first under both queueing policies (budget 1200 schedules each; counters scenarios_with_every_schedule_enumerated / scenarios_enumeration_cut_by_budget) — a complement, the deciding step remains the seeded search; distinct = distinct (scenario, sequence of lock grants) pairs".into(),
+                    rule: "seeded concurrent scenarios (2-4 simulated caller threads x 1-7 calls over 1-5 shared sync nodes, seeded initial edges incl. self-loops and parallel edges) run under a seeded scheduler that decides every interleaving of lock acquisitions and the lock's queueing policy (writer preference on/off); verdicts: deadlock, step-budget overrun, panic/poison, quiescent mirror/symmetry invariant, serialisability of the mutating calls' return values and final graph against the reference model, and read consistency: a query, snapshot, container view or directed traversal whose answer no call of another task can change (per list side, per node pair, per reachable set; next to read-only tasks: everything) must return what it returns sequentially; for a small share of the tiniest scenarios (<= 3 tasks, <= 3 calls) every schedule is enumerated depth-first under both queueing policies (budget 1200 schedules each; counters scenarios_with_every_schedule_enumerated / scenarios_enumeration_cut_by_budget) — a complement, the deciding step remains the seeded search; distinct = distinct (scenario, sequence of lock grants) pairs".into(),
                     assumptions: vec![
                         "context switches only at lock acquisitions: all shared mutable state of the sync flavours lives under the per-node RwLock and the mutation mutex".into(),
                         "all nodes stay alive for the whole run".into(),
